@@ -1,6 +1,10 @@
 #!/usr/bin/env python3
 """MIR -> SMT-LIB2 encoder for the slot-index arithmetic of SimpleGseMemory.
 
+Calls to other functions of the memory module (a `slot()` helper, say) are inlined: every path of
+the loop-free helper body is explored, the result is an ite over the path conditions and the
+helper's asserts become obligations under them.
+
 Kani cannot reach memories with >= 256 context slots (a 256-element array of ~100-byte
 `Option<MemoryContext>` runs CBMC out of 24 GB even for one call), yet the only arithmetic that
 depends on the slot count is the loop-free prefix of new_frag / take_frag / save_frag that turns
@@ -12,7 +16,8 @@ and asks z3 (cross-checked with cvc5) for every slot count 1..=65536 and every u
   no_panic     every MIR `assert` on the way to the slot access holds (remainder by zero,
                index < frags.len())
   consistent   the three operations compute the same slot for the same id
-  injective    with >= 256 slots two different ids never share a slot
+  injective    two different ids below the slot count never share a slot (so with >= 256 slots
+               no two ids do); the documented rule is frag_id % max_frag_id
 
 `sat` answers are turned into a native replay (harness crate, `c17::slot_replay`).
 Output mimics Kani's per-check log so the common driver parses it.
@@ -158,6 +163,10 @@ class Exec:
         self.self_len = self_len or {}
         self.aggregate = None
         self.trace = []
+        self.helpers = {}
+        self.depth = 0
+        self.self_locals = {"_1"} if self_fields else set()
+        self.returns = []
 
     def sym(self, name, w):
         n = "s_" + re.sub(r"[^A-Za-z0-9]+", "_", name).strip("_")
@@ -185,9 +194,9 @@ class Exec:
         if m:
             k = int(m.group(2))
             w = self.ty_width(m.group(3))
-            if m.group(1) == "_1" and w and k in self.self_fields:
+            if m.group(1) in self.self_locals and w and k in self.self_fields:
                 return self.self_fields[k]
-            if m.group(1) == "_1" and not w:
+            if m.group(1) in self.self_locals and not w:
                 return ("opaque", f"self.{k}", ("self", k))
             base = self.place("(*" + m.group(1) + ")")
             return self.project(base, k, m.group(3), text)
@@ -301,6 +310,9 @@ class Exec:
                 fields.append((fm.group(1), v))
             self.aggregate = (m.group(1), fields)
             return ("opaque", "aggregate", None)
+        m = re.match(r"^&(?:mut )?\(\*(_\d+)\)$", text)
+        if m and m.group(1) in self.self_locals:
+            return ("selfref",)
         m = re.match(r"^&(?:mut )?(.+)$", text)
         if m:
             return ("opaque", text, None)
@@ -312,79 +324,170 @@ class Exec:
         except Unsupported:
             return ("opaque", text, None)
 
-    def run(self, stop_after_local=None, max_blocks=40):
+    def exec_block(self, bb):
+        """Execute the statements of one block; return its terminator as a tuple."""
+        stmts = self.fn.blocks.get(bb)
+        if stmts is None:
+            raise Unsupported("no block " + bb)
+        for s in stmts:
+            self.trace.append(f"{bb}: {s}")
+            m = re.match(r"^assert\((!?)(?:move |copy )?(.+?), \"(.*?)\".*-> \[success: (bb\d+)", s)
+            if m:
+                c = self.operand("copy " + m.group(2)) if re.match(r"^[_(]", m.group(2)) else self.operand(m.group(2))
+                if c[0] != "bv" or c[1] != 1:
+                    raise Unsupported("assert on non-bool: " + s)
+                want = "#b0" if m.group(1) == "!" else "#b1"
+                return ("assert", f"(= {c[2]} {want})", m.group(3), m.group(4))
+            m = re.match(r"^goto -> (bb\d+);$", s)
+            if m:
+                return ("goto", m.group(1))
+            cm = re.match(r"^(_\d+) = (.*\)) -> \[return: (bb\d+)", s)
+            if cm:
+                rhs = cm.group(2)
+                depth = 0
+                cut = None
+                for i in range(len(rhs) - 1, -1, -1):
+                    if rhs[i] == ")":
+                        depth += 1
+                    elif rhs[i] == "(":
+                        depth -= 1
+                        if depth == 0:
+                            cut = i
+                            break
+                if cut is not None:
+                    callee = rhs[:cut]
+                    if not re.match(r"^(Add|Sub|Mul)WithOverflow$|^(Eq|Ne|Lt|Le|Gt|Ge|Rem|Div|Add|Sub|Mul|Not|PtrMetadata|BitAnd|BitOr|BitXor|Shl|Shr)$", callee):
+                        args = [x for x in re.split(r", (?=(?:copy|move|const) )", rhs[cut + 1:-1]) if x]
+                        vals = []
+                        for x in args:
+                            try:
+                                vals.append(self.operand(x))
+                            except Unsupported:
+                                vals.append(("opaque", x, None))
+                        return ("call", cm.group(1), callee, vals, cm.group(3))
+            m = re.match(r"^switchInt\((?:move |copy )?(.+?)\) -> \[(.*)\];$", s)
+            if m:
+                try:
+                    v = self.operand("copy " + m.group(1))
+                except Unsupported:
+                    return ("stop", "switchInt")
+                targets = []
+                other = None
+                for part in m.group(2).split(", "):
+                    k, t = part.split(": ")
+                    if k == "otherwise":
+                        other = t
+                    else:
+                        targets.append((int(k), t))
+                return ("switch", v, targets, other)
+            if s.startswith("return"):
+                return ("return",)
+            if s.startswith(("switchInt", "drop(", "unreachable", "resume")):
+                return ("stop", s.split("(")[0])
+            m = re.match(r"^(_\d+) = (.*);$", s)
+            if m:
+                self.env[m.group(1)] = self.rvalue(m.group(1), m.group(2))
+                continue
+            if re.match(r"^(StorageLive|StorageDead|nop|FakeRead|PlaceMention|Retag|AscribeUserType)", s):
+                continue
+            if re.match(r"^\((.+)\) = ", s) or re.match(r"^\(\*_", s):
+                # store through a place: only tolerated when it is not an integer field of self
+                if re.match(r"^\(\(\*_\d+\)\.\d+: (usize|u8|u16|u32|u64)\) = ", s):
+                    raise Unsupported("store to an integer field: " + s)
+                continue
+            raise Unsupported("statement: " + s)
+        return ("stop", "end-of-block")
+
+    def inline_call(self, callee, vals, conds):
+        """Inline a call to another function of the dump (a helper of the same type): explore every
+        path of its loop-free body, return the merged value; its asserts become obligations under
+        their path conditions.  None when the callee is not in the dump."""
+        name = callee.split("::")[-1]
+        name = re.sub(r"<.*$", "", name)
+        cands = [f for f in self.helpers.get(name, [])]
+        if len(cands) != 1 or self.depth >= 3:
+            return None
+        fn = cands[0]
+        sub = Exec(fn, self.consts, self.self_fields, self.self_len)
+        sub.helpers = self.helpers
+        sub.depth = self.depth + 1
+        sub.self_locals = set()
+        params = re.findall(r"(_\d+): ", fn.sig.split("(", 1)[1].rsplit(")", 1)[0])
+        if len(params) != len(vals):
+            return None
+        for pname, v in zip(params, vals):
+            if v[0] == "selfref":
+                sub.self_locals.add(pname)
+            sub.env[pname] = v
+        sub.syms = self.syms
+        sub.returns = []
+        sub.explore("bb0", list(conds), set())
+        self.obls.extend(sub.obls)
+        if not sub.returns:
+            raise Unsupported("helper " + name + " has no returning path")
+        val = None
+        for pc, v in reversed(sub.returns):
+            if v[0] != "bv":
+                raise Unsupported("helper " + name + " returns a non-integer")
+            if val is None:
+                val = v
+            else:
+                c = "(and " + " ".join(pc) + ")" if len(pc) > 1 else (pc[0] if pc else "true")
+                val = bv(v[1], f"(ite {c} {v[2]} {val[2]})")
+        return val
+
+    def explore(self, bb, conds, seen):
+        """All paths of a loop-free function body (callee mode)."""
+        if bb in seen:
+            raise Unsupported("loop in helper at " + bb)
+        seen = seen | {bb}
+        t = self.exec_block(bb)
+        if t[0] == "goto":
+            return self.explore(t[1], conds, seen)
+        if t[0] == "assert":
+            pc = "(and " + " ".join(conds) + ")" if len(conds) > 1 else (conds[0] if conds else "true")
+            self.obls.append((f"(=> {pc} {t[1]})", t[2], bb))
+            return self.explore(t[3], conds + [t[1]], seen)
+        if t[0] == "call":
+            v = self.inline_call(t[2], t[3], conds)
+            self.env[t[1]] = v if v is not None else ("call", t[2], t[3])
+            return self.explore(t[4], conds, seen)
+        if t[0] == "switch":
+            v, targets, other = t[1], t[2], t[3]
+            if v[0] != "bv":
+                raise Unsupported("switch on a non-integer in a helper")
+            snapshot = dict(self.env)
+            eqs = []
+            for k, tb in targets:
+                c = f"(= {v[2]} (_ bv{k} {v[1]}))"
+                eqs.append(c)
+                self.env = dict(snapshot)
+                self.explore(tb, conds + [c], seen)
+            if other:
+                self.env = dict(snapshot)
+                self.explore(other, conds + [f"(not {c})" for c in eqs], seen)
+            return
+        if t[0] == "return":
+            self.returns.append((list(conds), self.env.get("_0", ("opaque", "_0", None))))
+            return
+        raise Unsupported("helper stops at " + str(t[1]))
+
+    def run(self, max_blocks=40):
+        """Straight-line prefix of a top-level function (calls to helpers are inlined)."""
         bb = "bb0"
         for _ in range(max_blocks):
-            stmts = self.fn.blocks.get(bb)
-            if stmts is None:
-                raise Unsupported("no block " + bb)
-            nxt = None
-            for s in stmts:
-                self.trace.append(f"{bb}: {s}")
-                m = re.match(r"^assert\((!?)(?:move |copy )?(.+?), \"(.*?)\".*-> \[success: (bb\d+)", s)
-                if m:
-                    c = self.operand("copy " + m.group(2)) if re.match(r"^[_(]", m.group(2)) else self.operand(m.group(2))
-                    if c[0] != "bv" or c[1] != 1:
-                        raise Unsupported("assert on non-bool: " + s)
-                    want = "#b0" if m.group(1) == "!" else "#b1"
-                    self.obls.append((f"(= {c[2]} {want})", m.group(3), bb))
-                    nxt = m.group(4)
-                    break
-                m = re.match(r"^goto -> (bb\d+);$", s)
-                if m:
-                    nxt = m.group(1)
-                    break
-                m = None
-                cm = re.match(r"^(_\d+) = (.*\)) -> \[return: (bb\d+)", s)
-                if cm:
-                    rhs = cm.group(2)
-                    depth = 0
-                    cut = None
-                    for i in range(len(rhs) - 1, -1, -1):
-                        if rhs[i] == ")":
-                            depth += 1
-                        elif rhs[i] == "(":
-                            depth -= 1
-                            if depth == 0:
-                                cut = i
-                                break
-                    if cut is not None:
-                        class _M:
-                            pass
-                        g = {1: cm.group(1), 2: rhs[:cut], 3: rhs[cut + 1:-1], 4: cm.group(3)}
-                        m = _M()
-                        m.group = lambda k, g=g: g[k]
-                if m and not re.match(r"^(Add|Sub|Mul)WithOverflow$|^(Eq|Ne|Lt|Le|Gt|Ge|Rem|Div|Add|Sub|Mul|Not|PtrMetadata|BitAnd|BitOr|BitXor|Shl|Shr)$", m.group(2)):
-                    callee = m.group(2)
-                    args = [a for a in re.split(r", (?=(?:copy|move|const) )", m.group(3)) if a]
-                    vals = []
-                    for a in args:
-                        try:
-                            vals.append(self.operand(a))
-                        except Unsupported:
-                            vals.append(("opaque", a, None))
-                    self.env[m.group(1)] = ("call", callee, vals)
-                    nxt = m.group(4)
-                    break
-                if s.startswith(("switchInt", "return", "drop(", "unreachable", "resume")):
-                    return "stopped:" + s.split("(")[0]
-                m = re.match(r"^(_\d+) = (.*);$", s)
-                if m:
-                    v = self.rvalue(m.group(1), m.group(2))
-                    self.env[m.group(1)] = v
-                    continue
-                if re.match(r"^(StorageLive|StorageDead|nop|FakeRead|PlaceMention|Retag|AscribeUserType)", s):
-                    continue
-                m = re.match(r"^\((.+)\) = ", s)
-                if m or re.match(r"^\(\*_", s):
-                    # store through a place: only tolerated when it is not an integer field of self
-                    if re.match(r"^\(\(\*_1\)\.\d+: (usize|u8|u16|u32|u64)\) = ", s):
-                        raise Unsupported("store to an integer field of self: " + s)
-                    continue
-                raise Unsupported("statement: " + s)
-            if nxt is None:
-                return "stopped:end-of-block"
-            bb = nxt
+            t = self.exec_block(bb)
+            if t[0] == "goto":
+                bb = t[1]
+            elif t[0] == "assert":
+                self.obls.append((t[1], t[2], bb))
+                bb = t[3]
+            elif t[0] == "call":
+                v = self.inline_call(t[2], t[3], [o[0] for o in self.obls if not o[0].startswith("(=>")])
+                self.env[t[1]] = v if v is not None else ("call", t[2], t[3])
+                bb = t[4]
+            else:
+                return "stopped:" + str(t[1] if len(t) > 1 and isinstance(t[1], str) else t[0])
         return "stopped:max-blocks"
 
 
@@ -466,8 +569,15 @@ def main():
             consts[m.group(2)] = v
         for k in dup:
             del consts[k]
+        # helpers: every other function of the memory module in the dump may be inlined
+        helpers = {}
+        for sig, body in fns.items():
+            hm = re.match(r"^fn (gse_decap::)?gse_decap_memory::.*?::(\w+)\(", sig)
+            if hm and hm.group(2) not in ("new", "new_frag", "take_frag", "save_frag"):
+                helpers.setdefault(hm.group(2), []).append(Fn(sig, body))
         # ---- new ----
         e = Exec(memfns["new"], consts)
+        e.helpers = helpers
         e.env["_1"] = bv(64, "N")
         e.syms["N"] = 64
         why = e.run()
@@ -509,6 +619,7 @@ def main():
         for name in ("new_frag", "take_frag", "save_frag"):
             f = memfns[name]
             ex = Exec(f, consts, self_fields, self_len)
+            ex.helpers = helpers
             why = ex.run()
             loc = (f.debug.get("idx") or [None])[0]
             if not loc or loc not in ex.env or ex.env[loc][0] != "bv":
@@ -588,8 +699,8 @@ def main():
         ta = rename(idx["new_frag"][2], idsym["new_frag"], "fa")
         tb = rename(idx["new_frag"][2], idsym["new_frag"], "fb")
         pre = [rename(o[0], idsym["new_frag"], "fa") for o in obls["new_frag"]] + [rename(o[0], idsym["new_frag"], "fb") for o in obls["new_frag"]]
-        decide("slotidx.new_frag.assertion.i", "C17.slot_index_injective_with_256_slots: two ids never share a slot when there is a slot per id", "new_frag",
-               d, base + pre + ["(bvuge N (_ bv256 64))", "(not (= fa fb))"], f"(= {ta} {tb})", ["N", "fa", "fb"], replay_of("N", "fa", "fb"))
+        decide("slotidx.new_frag.assertion.i", "C17.slot_index_injective_below_slot_count: two different ids below the slot count never share a slot (documented rule: frag_id % max_frag_id)", "new_frag",
+               d, base + pre + ["(bvult ((_ zero_extend 56) fa) N)", "(bvult ((_ zero_extend 56) fb) N)", "(not (= fa fb))"], f"(= {ta} {tb})", ["N", "fa", "fb"], replay_of("N", "fa", "fb"))
         # vacuity witness: the assumptions are satisfiable with a large memory
         script = query(dict(new_syms), base + ["(bvuge N (_ bv256 64))"], "true", ["N"])
         r, m, dt, o = solve(script, "z3")
@@ -601,7 +712,7 @@ def main():
         # own tests never call these operations on such a memory); the encoding must show it
         d = dict(new_syms)
         d[idsym["take_frag"]] = 8
-        script = query(d, ["(= N (_ bv0 64))"] + [o[0] for o in new_obls], f"(not {obls['take_frag'][0][0]})", ["N"])
+        script = query(d, ["(= N (_ bv0 64))"] + [o[0] for o in new_obls], "(not (and " + " ".join(o[0] for o in obls['take_frag']) + "))", ["N"])
         r, m, dt, o = solve(script, "z3")
         solver_s += dt
         nq += 1
